@@ -684,7 +684,8 @@ func runCheck(prop, tier string, seed int, repoDir string, spec propSpec, outDir
 		exit = 2
 	}
 	// evidence
-	var fl, il, al []string
+	var fl, il []string
+	al := []string{"go/packages+go/ssa (x/tools v0.29.0) define the program; gosym's SSA semantics (validated by native witness replays); SMT solver verdicts; environment intercepts listed under intercepts_used"}
 	for f := range funcs {
 		fl = append(fl, f)
 	}
@@ -726,8 +727,8 @@ func runCheck(prop, tier string, seed int, repoDir string, spec propSpec, outDir
 		"functions_encoded":             repoFuncs,
 		"functions_encoded_total":       len(fl),
 		"intercepts_used":               il,
-		"outside_claim":                 spec.Outside,
-		"inconclusive":                  inconclusive,
+		"outside_claim":                 nonNil(spec.Outside),
+		"inconclusive":                  nonNil(inconclusive),
 		"exhaustive":                    false,
 	}
 	ev := map[string]interface{}{
@@ -799,4 +800,11 @@ func sameObserves(a, b []string) bool {
 		}
 	}
 	return true
+}
+
+func nonNil(s []string) []string {
+	if s == nil {
+		return []string{}
+	}
+	return s
 }
